@@ -2,12 +2,14 @@
 
 * generator-side terms (what the constraint TEXT says): nested tuples
       ('n', text) | ('v', j) | ('+',a,b) | ('-',a,b) | ('*',a,b) | ('/',a,b) | ('neg',a)
+      | ('pow', a, ('n', '<int>')) | ('abs', a) | ('max', a, b, ..) | ('min', a, b, ..) | (<fname>, a) for the numeric
+      functions of the generated namespace (FUNCS1) | ('sum', a, b, ..) | ('mean', a, b, ..) | ('spread', a, b, ..)
   printed as text under a variable-naming scheme (`print_expr`) for mystic, and in `x[j]` form for the
   harness' own reading of the text.
 * `parse_expr(src)`: python source in `x[j]` form (what mystic EMITS, or the harness' own `x[j]` print of the
   text) -> AST in the language of lean/MysticVerif/Model/Emitted.lean:
       ('n', float) ('v', j) ('+',a,b) ('-',a,b) ('*',a,b) ('/',a,b) ('neg',a) ('max',a,b) ('min',a,b)
-      ('tol',a) ('equal',a,b) ('bor',a,b) ('false',) ('iszero',a)
+      ('tol',a) ('equal',a,b) ('bor',a,b) ('false',) ('iszero',a) ('abs',a) ('app1',id,a) ('app2',id,a,b)
 * `sexp(ast)`: protocol form.
 """
 import ast as _ast
@@ -18,10 +20,23 @@ class Untranslatable(Exception):
     pass
 
 
+# the numeric functions of the generated namespace that are modelled: name -> (driver id, IEEE-exact?)
+FUNCS1 = {"sqrt": (0, True), "floor": (1, True), "ceil": (2, True), "exp": (3, False), "log": (4, False),
+          "sin": (5, False), "cos": (6, False)}
+CALLS = ("abs", "max", "min", "sum", "mean", "spread") + tuple(FUNCS1)
+LISTCALLS = ("sum", "mean", "spread")
+
+
 # ------------------------------------------------------------------ printing generator terms
 def print_expr(e, name, top=True):
     """fully parenthesised below the top level, so that python's reading is unambiguous"""
     op = e[0]
+    if op == "pow":
+        return print_expr(e[1], name, False) + "**" + e[2][1]
+    if op in LISTCALLS:
+        return op + "([" + ", ".join(print_expr(t, name, True) for t in e[1:]) + "])"
+    if op in CALLS:
+        return op + "(" + ", ".join(print_expr(t, name, True) for t in e[1:]) + ")"
     if op == "n":
         s = e[1]
         return s if (top or not s.startswith("-")) else "(" + s + ")"
@@ -44,6 +59,8 @@ def int_only(e):
         return _int_text(e[1])
     if e[0] == "v":
         return False
+    if e[0] in FUNCS1 or e[0] == "mean":
+        return False
     return all(int_only(t) for t in e[1:])
 
 
@@ -52,6 +69,8 @@ def floatify(e):
         return ("n", e[1] + ".") if _int_text(e[1]) else e
     if e[0] == "v":
         return e
+    if e[0] == "pow":
+        return (e[0], floatify(e[1]), e[2])
     return (e[0],) + tuple(floatify(t) for t in e[1:])
 
 
@@ -61,6 +80,10 @@ def deint(e):
     if e[0] in ("n", "v"):
         return e
     kids = [deint(t) for t in e[1:]]
+    if e[0] == "pow":
+        return (e[0], floatify(kids[0]) if int_only(kids[0]) else kids[0], e[2])      # the exponent stays an int literal
+    if e[0] in CALLS:
+        return (e[0],) + tuple(kids)
     if len(kids) == 2 and int_only(kids[0]) and int_only(kids[1]):
         kids[1] = floatify(kids[1])
     return (e[0],) + tuple(kids)
@@ -107,6 +130,17 @@ def _tr(node):
                 return ("n", -float(v))
             return ("neg", _tr(node.operand))
         raise Untranslatable("unary %r" % node.op)
+    if isinstance(node, _ast.BinOp) and isinstance(node.op, _ast.Pow):
+        ex = node.right
+        if isinstance(ex, _ast.UnaryOp) and isinstance(ex.op, _ast.USub) and isinstance(ex.operand, _ast.Constant):
+            k = ex.operand.value; sign = -1
+        elif isinstance(ex, _ast.Constant):
+            k = ex.value; sign = 1
+        else:
+            raise Untranslatable("exponent")
+        if isinstance(k, bool) or not isinstance(k, int):
+            raise Untranslatable("non-integer exponent")
+        return ("app2", 0, _tr(node.left), ("n", float(sign * k)))
     if isinstance(node, _ast.BinOp):
         ops = {_ast.Add: "+", _ast.Sub: "-", _ast.Mult: "*", _ast.Div: "/"}
         for k, s in ops.items():
@@ -125,8 +159,32 @@ def _tr(node):
         raise Untranslatable("compare")
     if isinstance(node, _ast.Call) and isinstance(node.func, _ast.Name) and not node.keywords:
         f = node.func.id; a = node.args
-        if f in ("max", "min") and len(a) == 2:
-            return (f, _tr(a[0]), _tr(a[1]))
+        if f in _CONSTS:
+            raise Untranslatable("call of a name bound through locals")
+        if f in ("max", "min") and len(a) >= 2:
+            out = (f, _tr(a[0]), _tr(a[1]))          # python keeps the FIRST extremal argument: a left fold of the 2-ary form
+            for t in a[2:]:
+                out = (f, out, _tr(t))
+            return out
+        if f == "abs" and len(a) == 1:
+            return ("abs", _tr(a[0]))
+        if f in FUNCS1 and len(a) == 1:
+            return ("app1", FUNCS1[f][0], _tr(a[0]))
+        if f in ("sum", "mean", "average", "spread", "ptp") and len(a) == 1 and isinstance(a[0], _ast.List) and a[0].elts:
+            el = [_tr(t) for t in a[0].elts]
+            if f in ("spread", "ptp"):           # measures.spread: max(samples) - min(samples); numpy.ptp likewise
+                mx = el[0]; mn = el[0]
+                for t in el[1:]:
+                    mx = ("max", mx, t); mn = ("min", mn, t)
+                return ("-", mx, mn)
+            acc = ("n", 0.0)                     # python / numpy start from 0 and add left to right (exactness regime)
+            for t in el:
+                acc = ("+", acc, t)
+            if f == "sum":
+                return acc
+            q = ("/", acc, ("n", float(len(el))))
+            # measures.mean: `0.0 if abs(ssum) <= tol else ssum` turns -0.0 into 0.0; numpy.mean keeps it
+            return ("+", q, ("n", 0.0)) if f == "mean" else q
         if f == "_tol" and len(a) == 3 and all(isinstance(t, _ast.Name) for t in a[1:]) \
                 and a[1].id == "tol" and a[2].id == "rel":
             return ("tol", _tr(a[0]))
@@ -157,18 +215,23 @@ def parse_expr(src, consts=None):
         _CONSTS = {}
 
 
-def parse_assign(src):
+def parse_assign(src, consts=None):
     """'x[i] = e' -> (i, ast)"""
+    global _CONSTS
     try:
         tree = _ast.parse(src.strip(), mode="exec")
     except SyntaxError as exc:
         raise Untranslatable("syntax: %s" % exc)
     if len(tree.body) != 1 or not isinstance(tree.body[0], _ast.Assign) or len(tree.body[0].targets) != 1:
         raise Untranslatable("not a single assignment")
-    t = _tr(tree.body[0].targets[0])
-    if t[0] != "v":
-        raise Untranslatable("target")
-    return (t[1], _tr(tree.body[0].value))
+    _CONSTS = dict(consts or {})
+    try:
+        t = _tr(tree.body[0].targets[0])
+        if t[0] != "v":
+            raise Untranslatable("target")
+        return (t[1], _tr(tree.body[0].value))
+    finally:
+        _CONSTS = {}
 
 
 def sexp(e):
@@ -179,6 +242,8 @@ def sexp(e):
         return "(v %d)" % e[1]
     if op == "false":
         return "(false)"
+    if op in ("app1", "app2"):
+        return "(%s %d %s)" % (op, e[1], " ".join(sexp(t) for t in e[2:]))
     return "(" + op + " " + " ".join(sexp(t) for t in e[1:]) + ")"
 
 
@@ -204,7 +269,33 @@ def py_holds(cmp, a, b):
 def py_eval(term, v, consts=None):
     """independent evaluation of a generator term at the point v by python itself (no translator, no mystic)"""
     src = print_expr(term, xj)
-    env = {"x": v}
+    env = dict(_PYENV); env["x"] = v
     if consts:
         env.update(consts)
     return eval(compile(src, "<rel>", "eval"), {"__builtins__": {}}, env)
+
+
+def _pyenv():
+    """what the documentation of generate_solvers / generate_conditions promises the text may use: python builtins and the
+    top-level numpy / math functions (numpy's win: `from math import *; from numpy import *; from builtins import *`)"""
+    import numpy as _np
+    env = {"abs": abs, "max": max, "min": min, "sum": sum}
+    for f in FUNCS1:
+        env[f] = getattr(_np, f)
+    env["mean"] = lambda s: (lambda q: 0.0 if q == 0 else q)(sum(s) / len(s))
+    env["spread"] = lambda s: max(s) - min(s)
+    return env
+
+
+_PYENV = _pyenv()
+
+
+def inexact(e):
+    """does the AST use a function whose value is not reproducible bit for bit (exp, log, sin, cos; x**k through C pow)"""
+    if not isinstance(e, tuple):
+        return False
+    if e[0] == "app1" and e[1] >= 3:
+        return True
+    if e[0] == "app2":
+        return True
+    return any(inexact(t) for t in e[1:])
